@@ -243,6 +243,22 @@ def check_product_dependence(idx: ProgramIndex, rep: Report, rule: str = "C07.P8
         pos_items = [i for i in rec.items if i.kind in ("pos", "star")]
         from ..deps import ReachingDefs
 
+        from .c01 import Consult
+
+        cons = Consult(idx, c)
+        plain_reads = reads
+
+        def reads_with_self_methods(e, _plain=plain_reads, _cons=cons, _c=c):
+            """value reads; a call self.m(...) additionally reads every attribute of self that m consults (transitively):
+            a helper that builds both interpolation matrices from self hands the dependence on to its result."""
+            out = set(_plain(e))
+            for x in ast.walk(e):
+                if isinstance(x, ast.Call) and isinstance(x.func, ast.Attribute) and isinstance(x.func.value, ast.Name) \
+                        and x.func.value.id == "self" and idx.resolve_method(_c, x.func.attr) is not None:
+                    out |= {"self." + a for a in _cons.of(x.func.attr)}
+            return out
+
+        reads = reads_with_self_methods
         rd = ReachingDefs(fn, reads=reads)  # flow-sensitive value dependence: shapes / dtypes of a tensor are not its value
         who = f"{c.name}._bilinear_derivative"
 
